@@ -108,7 +108,7 @@ MkC13(d) ==
       [] d.k = "revoke" -> P("Revoke", PRevoke(d.u, d.n))
       [] d.k = "crypto" -> P(d.n, [uid |-> d.u, hascp |-> d.b])
       [] d.k = "mac" -> P("MAC", [uid |-> d.u, hasalg |-> d.b, hasdata |-> d.s = "data"])
-      [] d.k = "derive" -> P("DeriveKey", [otype |-> d.n, uids |-> <<d.u>>, method |-> "HMAC",
+      [] d.k = "derive" -> P("DeriveKey", [otype |-> d.n, uids |-> <<d.u>>, method |-> IF d.s = "" THEN "HMAC" ELSE d.s,
                                           attrs |-> <<A("Cryptographic Algorithm", "AES"), A("Cryptographic Length", d.i),
                                                       A("Cryptographic Usage Mask", <<"ENCRYPT">>)>>])
       [] d.k = "locate" -> P("Locate", PLocate(LocateFilterOf(d.n), -1, -1))
@@ -160,7 +160,9 @@ Grid(s) ==
       \cup {D("revoke", w, v, u, c, 0, "", FALSE) : u \in us, c \in {"KEY_COMPROMISE", "CESSATION_OF_OPERATION"}}
       \cup {D("crypto", w, v, u, op, 0, "", hc) : op \in {"Encrypt", "Decrypt", "Sign", "SignatureVerify"}, u \in us, hc \in BOOLEAN}
       \cup {D("mac", w, v, u, "", 0, x, ha) : u \in us, ha \in BOOLEAN, x \in {"data", ""}}
-      \cup {D("derive", w, v, u, t, l, "", FALSE) : t \in {"SymmetricKey", "SecretData", "OpaqueData"}, u \in us, l \in {128, 100}}
+      \cup {D("derive", w, v, u, t, l, "", FALSE) : t \in {"SymmetricKey", "SecretData", "OpaqueData"}, u \in us, l \in {128, 100, 0, -8, -64}}
+      \* a derivation method whose output does not depend on the requested length
+      \cup {D("derive", w, v, 1, "SymmetricKey", l, "HASH", FALSE) : l \in {128, 256, 0, -8, -64}}
       \cup {D("locate", w, v, 0, n, 0, "", FALSE) : n \in (AttrNames \ {"Digest", "Link"}) \cup {"@two", "@three", "@typealg", "@none", "@far"}}
       \cup {D("page", w, v, o, "", m, "", FALSE) : o \in {0, 5}, m \in {0, 1}}
       \cup {D("query", w, v, 0, "", 0, "", FALSE), D("discover", w, v, 0, "", 0, "", FALSE), D("discover", w, v, 0, "", 0, "", TRUE)}
